@@ -89,13 +89,14 @@ Theorem C03_let_statement_simulates : forall s toks,
   fst (cur_tokens s) = Ok toks -> enable_tracing s = false ->
   forall v e e' ts rest i,
   skipn i toks = TSymbol v :: TEquals :: ts ++ rest -> stops 0 rest = true ->
-  tr e = Some e' -> Renders 0 e' ts -> 1 + pdepth e' < max_nesting ->
+  tr e = Some e' -> Renders 0 e' ts ->
+  forall d, Nat.eqb d max_nesting = false -> S d + pdepth e' < max_nesting ->
   forall p after li st, same_store st s ->
   exists fuel0, forall fuel, fuel0 <= fuel -> forall r o,
     match exec (xsize e) p (SLet v [] e) after li st with
     | Next pc st' =>
         pc = after /\
-        exists s', evaluate_statement fuel 0 (at_idx s i r o) = (Ok tt, s')
+        exists s', evaluate_statement fuel d (at_idx s i r o) = (Ok tt, s')
           /\ same_store st' s'
           /\ loc s' = mkloc (loc_line (loc s)) (i + 2 + length ts)
           /\ W s o (outputs s')
@@ -103,7 +104,7 @@ Theorem C03_let_statement_simulates : forall s toks,
                                 (at_idx s (i + 2 + length ts) r' (outputs s')))
     | Fail er line st' =>
         line = line_no p li /\ st' = st /\
-        exists ie l s', evaluate_statement fuel 0 (at_idx s i r o) = (Err ie l, s')
+        exists ie l s', evaluate_statement fuel d (at_idx s i r o) = (Err ie l, s')
           /\ rerr_of ie = er /\ same_store st s'
     | Done _ | NoFuel => False
     end.
@@ -113,23 +114,24 @@ Proof. exact let_statement_simulates. Qed.
    spelling: the reference appends one output record, the model pushes one
    Print record with the same text behind any warnings; stores and cursor as
    for the assignment; or both fail with the same error kind *)
-Theorem C03_print_statement_simulates : forall s toks items mitems ts rest i p after li st,
+Theorem C03_print_statement_simulates : forall s toks items mitems ts rest i p after li st d,
   fst (cur_tokens s) = Ok toks -> enable_tracing s = false ->
   skipn i toks = TPrint :: ts ++ rest ->
-  tr_items items = Some mitems -> IRenders rest mitems ts -> 1 + idepth mitems < max_nesting ->
+  tr_items items = Some mitems -> IRenders rest mitems ts ->
+  Nat.eqb d max_nesting = false -> S d + idepth mitems < max_nesting ->
   same_store st s ->
   exists fuel0, forall fuel, fuel0 <= fuel -> forall r o,
     match exec (isize items) p (SPrint items) after li st with
     | Next pc st' =>
         pc = after /\
         exists text, st' = add_out text st /\
-        exists s' ow r', evaluate_statement fuel 0 (at_idx s i r o) = (Ok tt, s')
+        exists s' ow r', evaluate_statement fuel d (at_idx s i r o) = (Ok tt, s')
           /\ W s o ow
           /\ s' = at_idx s (i + 1 + length ts) r' (ow ++ [OPrint text])
           /\ same_store st' s'
     | Fail er line st' =>
         line = line_no p li /\ st' = st /\
-        exists ie l s', evaluate_statement fuel 0 (at_idx s i r o) = (Err ie l, s')
+        exists ie l s', evaluate_statement fuel d (at_idx s i r o) = (Err ie l, s')
           /\ rerr_of ie = er /\ same_store st s'
     | Done _ | NoFuel => False
     end.
@@ -231,15 +233,15 @@ Proof.
     + repeat constructor.
     + intros li n stmts H.
       destruct li as [|[|[|[|li]]]]; cbn in H; try (destruct li; discriminate); inversion H; subst; eexists; (split; [vm_compute; reflexivity|]); apply LR_last.
-      * apply (SR_let 8 [] vI (XBin RAdd (XVar vI) (XNum n1)) (EBin (BAddSub OAdd) (EVar vI) (ENum n1)) [TSymbol vI; TPlus; TNumber n1]); try reflexivity; try (cbn; lia).
+      * apply (SR_let 8 0 [] vI (XBin RAdd (XVar vI) (XNum n1)) (EBin (BAddSub OAdd) (EVar vI) (ENum n1)) [TSymbol vI; TPlus; TNumber n1]); try reflexivity; try (cbn; lia).
         do 3 (apply R_incl; [lia|]).
         apply (R_bin (BAddSub OAdd) (EVar vI) (ENum n1) [TSymbol vI] [TNumber n1]).
         -- do 4 (apply R_incl; [cbn; lia|]). constructor.
         -- do 3 (apply R_incl; [cbn; lia|]). constructor.
-      * apply (SR_print 8 [] [PExpr (XVar vI); PSemi] [MExpr (EVar vI); MSemi] [TSymbol vI; TSemicolon]); try reflexivity; try (cbn; lia).
+      * apply (SR_print 8 0 [] [PExpr (XVar vI); PSemi] [MExpr (EVar vI); MSemi] [TSymbol vI; TSemicolon]); try reflexivity; try (cbn; lia).
         apply (IR_expr [] (EVar vI) [TSymbol vI] [MSemi] [TSemicolon]); [apply R0_var | reflexivity|].
         apply IR_semi. apply IR_nil. reflexivity.
-      * apply (SR_if 8 [] (XBin (RCmp CLt) (XVar vI) (XNum n3)) (EBin (BCmp OLessThan) (EVar vI) (ENum n3)) [TSymbol vI; TLessThan; TNumber n3] 10%N n10); try reflexivity; try (cbn; lia).
+      * apply (SR_if 8 0 [] (XBin (RCmp CLt) (XVar vI) (XNum n3)) (EBin (BCmp OLessThan) (EVar vI) (ENum n3)) [TSymbol vI; TLessThan; TNumber n3] 10%N n10); try reflexivity; try (cbn; lia).
         do 2 (apply R_incl; [lia|]).
         apply (R_bin (BCmp OLessThan) (EVar vI) (ENum n3) [TSymbol vI] [TNumber n3]).
         -- do 5 (apply R_incl; [cbn; lia|]). constructor.
@@ -262,7 +264,7 @@ Proof.
   - exists 10%N, [SLet vI [] (XBin RAdd (XVar vI) (XNum n1))], [TSymbol vI; TEquals; TSymbol vI; TPlus; TNumber n1], [TSymbol vI; TEquals; TSymbol vI; TPlus; TNumber n1].
     repeat split; try reflexivity.
     apply LR_last.
-    apply (SR_let 8 [] vI (XBin RAdd (XVar vI) (XNum n1)) (EBin (BAddSub OAdd) (EVar vI) (ENum n1)) [TSymbol vI; TPlus; TNumber n1]); try reflexivity; try (cbn; lia).
+    apply (SR_let 8 0 [] vI (XBin RAdd (XVar vI) (XNum n1)) (EBin (BAddSub OAdd) (EVar vI) (ENum n1)) [TSymbol vI; TPlus; TNumber n1]); try reflexivity; try (cbn; lia).
     do 3 (apply R_incl; [lia|]).
     apply (R_bin (BAddSub OAdd) (EVar vI) (ENum n1) [TSymbol vI] [TNumber n1]).
     + do 4 (apply R_incl; [cbn; lia|]). constructor.
@@ -294,7 +296,7 @@ Definition ex2_p : rprogram :=
 Lemma ex2_line10 : LRen 8 [SGosub 30%N; SPrint [PExpr (XVar vI); PSemi]] ([TGosub; TNumber n30] ++ TColon :: [TPrint; TSymbol vI; TSemicolon]).
 Proof.
   apply LR_cons; [apply SR_gosub; vm_compute; reflexivity|]. apply LR_last.
-  apply (SR_print 8 [] [PExpr (XVar vI); PSemi] [MExpr (EVar vI); MSemi] [TSymbol vI; TSemicolon]); try reflexivity; try (cbn; lia).
+  apply (SR_print 8 0 [] [PExpr (XVar vI); PSemi] [MExpr (EVar vI); MSemi] [TSymbol vI; TSemicolon]); try reflexivity; try (cbn; lia).
   apply (IR_expr [] (EVar vI) [TSymbol vI] [MSemi] [TSemicolon]); [apply R0_var | reflexivity|].
   apply IR_semi. apply IR_nil. reflexivity.
 Qed.
@@ -309,7 +311,7 @@ Proof.
       * exact ex2_line10.
       * apply LR_last, SR_end.
       * apply LR_last.
-        apply (SR_let 8 [] vI (XBin RAdd (XVar vI) (XNum n1)) (EBin (BAddSub OAdd) (EVar vI) (ENum n1)) [TSymbol vI; TPlus; TNumber n1]); try reflexivity; try (cbn; lia).
+        apply (SR_let 8 0 [] vI (XBin RAdd (XVar vI) (XNum n1)) (EBin (BAddSub OAdd) (EVar vI) (ENum n1)) [TSymbol vI; TPlus; TNumber n1]); try reflexivity; try (cbn; lia).
         do 3 (apply R_incl; [lia|]).
         apply (R_bin (BAddSub OAdd) (EVar vI) (ENum n1) [TSymbol vI] [TNumber n1]).
         -- do 4 (apply R_incl; [cbn; lia|]). constructor.
@@ -364,7 +366,7 @@ Lemma ex3_line10 : LRen 8 [SFor vI (XNum n1) (XNum n5) (Some (XNum n2))]
                           (TFor :: TSymbol vI :: TEquals :: [TNumber n1] ++ TTo :: [TNumber n5] ++ [TStep; TNumber n2]).
 Proof.
   apply LR_last.
-  apply (SR_for 8 [] vI (XNum n1) (ENum n1) [TNumber n1] (XNum n5) (ENum n5) [TNumber n5] (Some (XNum n2)) [TStep; TNumber n2]);
+  apply (SR_for 8 0 [] vI (XNum n1) (ENum n1) [TNumber n1] (XNum n5) (ENum n5) [TNumber n5] (Some (XNum n2)) [TStep; TNumber n2]);
     try reflexivity; try apply R0_num; try (cbn; lia).
   right. exists (XNum n2), (ENum n2), [TNumber n2]. repeat split; try reflexivity; try apply R0_num; cbn; lia.
 Qed.
@@ -378,7 +380,7 @@ Proof.
       destruct li as [|[|[|li]]]; cbn in H; try (destruct li; discriminate); inversion H; subst; eexists; (split; [vm_compute; reflexivity|]).
       * exact ex3_line10.
       * apply LR_last.
-        apply (SR_print 8 [] [PExpr (XVar vI); PSemi] [MExpr (EVar vI); MSemi] [TSymbol vI; TSemicolon]); try reflexivity; try (cbn; lia).
+        apply (SR_print 8 0 [] [PExpr (XVar vI); PSemi] [MExpr (EVar vI); MSemi] [TSymbol vI; TSemicolon]); try reflexivity; try (cbn; lia).
         apply (IR_expr [] (EVar vI) [TSymbol vI] [MSemi] [TSemicolon]); [apply R0_var | reflexivity|].
         apply IR_semi. apply IR_nil. reflexivity.
       * apply LR_last, SR_next.
